@@ -88,7 +88,8 @@ Fixpoint explain (t : N) (o : output) (c : cst) (ks : list tid) : option (cst * 
   | [] => None
   | k :: ks' =>
       if d_lo (c_s c) k <=? t + tol_lo then
-        let '(s', os) := fire t 0 0 k (c_s c) in
+        (* an observed failed send is explained by the closure running against a failing bind *)
+        let '(s', os) := step_in t 0 0 (match o with OErr _ => IFail (IFire k) | _ => IFire k end) (c_s c) in
         match dgrams t os with
         | (o1, _) :: rest =>
             if output_eqb o1 o then
@@ -126,7 +127,9 @@ Definition cstep (c : cst) (x : item) : cst * list N :=
   | Out t o =>
       match c_exp c with
       | (e, tc) :: rest =>
-          if output_eqb e o then
+          (* an owed datagram may be observed as refused by the bind: IFail i changes the
+             state exactly like i and turns its outputs into fail_of *)
+          if output_eqb e o || output_eqb (fail_of e) o then
             ({| c_s := c_s c; c_exp := rest; c_tun := c_tun c; c_fires := c_fires c |},
              f0 ++ if tc + tol_hi <? t then [23] else [])
           else (c, f0 ++ [24])
@@ -191,11 +194,13 @@ Fixpoint decode (l : list Uint63.int) : list item :=
        | 3 => In t IInit
        | 4 => In t (IRecv (Some a))
        | 5 => In t (IRecv None)
+       | 6 => In t IStop
        | 10 => Out t OInit
        | 11 => Out t OResp
        | 12 => Out t OKeepalive
        | 13 => Out t (OData a)
        | 14 => Out t (OTun a)
+       | 15 => Out t (OErr a)
        | _ => End t
        end) :: decode rest
   | _ => []
